@@ -129,7 +129,9 @@ def clause_key_package(prog, rep):
             ("extensions", lambda og, g: any(isinstance(k, dict) and str(k.get("item", "")).endswith("TAG_EXTENSIONS") for _, _, k in og.consts)
              or (og.has_call(lambda c: c.name == "contains") and og.has_call(lambda c: c.name == "to_nostr_tag")),
              "a missing required extension is refused"),
-            ("relays-nonempty", lambda og, g: og.has_call(lambda c: c.name in ("len", "is_empty")) and og.has_call(lambda c: c.name == "as_slice" and last_seg(c.self_adt) == "Tag"),
+            # the length test sits in the function that also parses the relay URLs (another tag's length check must not satisfy this)
+            ("relays-nonempty", lambda og, g: og.has_call(lambda c: c.name in ("len", "is_empty")) and og.has_call(lambda c: c.name == "as_slice" and last_seg(c.self_adt) == "Tag")
+             and any(x.name == "parse" and last_seg(x.self_adt) == "RelayUrl" for x in g.live_calls()),
              "an empty relays tag is refused"),
         ]
         for key, pred, txt in dec:
